@@ -6,6 +6,7 @@ import G3D.Proofs.BodySoundSets
 import G3D.Proofs.AlgebraAll
 import G3D.Proofs.K4f
 import G3D.Proofs.AlgebraEuler
+import G3D.Proofs.EulerAllProof
 /-! # C12 — intersection obeys the algebra of set intersection  (full for flats; partial for bodies)
     For flats everything follows from C01 because flats are closed under `intersection`.  For polygons the
     "vertices in both" clause follows from C02's exactness; self-intersection / subset / associativity for
@@ -151,5 +152,22 @@ theorem subset_all_types_of_euler (hE : EulerAll) (a b : Obj) (ha : OpOK a) (hb 
     (∃ g, inter a b = .ok (some g) ∧ ∀ x, ObjDen g x ↔ ObjDen a x) ∧
     (∃ g, inter b a = .ok (some g) ∧ ∀ x, ObjDen g x ↔ ObjDen a x) := by
   rw [Props.C04.inter_eq_ref, Props.C04.inter_eq_ref]; exact interRef_of_subset_all hE a b ha hb hsub hne
+
+
+/-! ### all seven types, unconditionally (Euler's formula is proved: `eulerAll`) -/
+/-- **associativity for all 343 type triples** -/
+theorem assoc_all_types (a b c : Obj) (ha : OpOK a) (hb : OpOK b) (hc : OpOK c) :
+    ∃ ab bc l r, inter a b = .ok ab ∧ inter b c = .ok bc ∧
+      interOpt ab (some c) = .ok l ∧ interOpt (some a) bc = .ok r ∧ ResOK' l ∧ ResOK' r ∧
+      (∀ x, denOptB l x ↔ (ObjDen a x ∧ ObjDen b x ∧ ObjDen c x)) ∧
+      (∀ x, denOptB r x ↔ (ObjDen a x ∧ ObjDen b x ∧ ObjDen c x)) := assoc_all_types_of_euler eulerAll a b c ha hb hc
+/-- `intersection(a, a)` denotes `a` — all seven types -/
+theorem self_all_types (a : Obj) (ha : OpOK a) :
+    ∃ g, inter a a = .ok (some g) ∧ OpOK g ∧ ∀ x, ObjDen g x ↔ ObjDen a x := self_all_types_of_euler eulerAll a ha
+/-- `a ⊆ b` ⇒ `intersection(a, b)`, `intersection(b, a)` denote `a` — all 49 pairs -/
+theorem subset_all_types (a b : Obj) (ha : OpOK a) (hb : OpOK b)
+    (hsub : ∀ x, ObjDen a x → ObjDen b x) (hne : ∃ x, ObjDen a x) :
+    (∃ g, inter a b = .ok (some g) ∧ ∀ x, ObjDen g x ↔ ObjDen a x) ∧
+    (∃ g, inter b a = .ok (some g) ∧ ∀ x, ObjDen g x ↔ ObjDen a x) := subset_all_types_of_euler eulerAll a b ha hb hsub hne
 
 end G3D.Props.C12
